@@ -44,6 +44,26 @@ def stream(chk):
             pat[rng.randrange(k)] = 1
         out.append((t, pat, rng.choice([(1, 3), (1, 4), (1, 5), (2, 5), (3, 5), (5, 1), (4, 1), (5, 2), (3, 1)]), 99, rng.random() < 0.5,
                     rng.choice([0, -1]), 'asymmetric-weights'))
+    # wide and shallow trees (a few leaves and one to three large multifurcations under the root) with a limit of at least the number of
+    # leaves: the number of re-gains below a node that keeps the character may exceed the height of the tree by far
+    for _ in range(chk.n(1500, 40000)):
+        k = rng.choice([10, 12, 14, 15, 16, 18])
+        ids = list(range(k))
+        rng.shuffle(ids)
+        top = rng.randrange(1, 5)
+        t = ids[:top]
+        rest = ids[top:]
+        nstar = rng.choice([1, 2, 3])
+        cuts = sorted(rng.sample(range(1, len(rest)), nstar - 1)) if nstar > 1 else []
+        for a_, b_ in zip([0] + cuts, cuts + [len(rest)]):
+            part = rest[a_:b_]
+            t.append(list(part) if len(part) > 1 else part[0])
+        pool = rng.choice([[1, 0], [1, 1, 0], [1, 0, 0]])
+        pat = [rng.choice(pool) for _ in range(k)]
+        if 1 not in pat:
+            pat[rng.randrange(k)] = 1
+        out.append((t, pat, rng.choice([(1, 1), (2, 1), (1, 2), (3, 2), (1, 1)]), rng.choice([99, k, k + 2]), rng.random() < 0.5,
+                    rng.choice([0, -1]), 'wide-shallow'))
     # clades whose leaves are all missing (the undetermined state must stay undetermined)
     for _ in range(chk.n(1200, 40000)):
         k = rng.choice([4, 5, 6, 7, 8, 9])
